@@ -100,6 +100,15 @@ Definition save_ops_v0 (name h : string) (data : content) : list op :=
    call file.IsWritable on the wallet file first. *)
 Definition service_ops (checks_writable : bool) (name h : string) (data : content) : list op :=
   ((if checks_writable then [OOpenW name] else []) ++ save_ops name h data)%list.
+(* The tmp file can only be created when its name fits the file system's limit
+   (NAME_MAX = 255 bytes; ".tmp." + 8 hex digits add 13). When it cannot, the
+   open fails (ENAMETOOLONG), SaveBinary returns the error and nothing is
+   written: the save consists of the IsWritable probe only. *)
+Definition tmp_creatable (name : string) : bool := (Z.of_nat (String.length name) + 13 <=? 255)%Z.
+Definition service_ops_fs (checks_writable : bool) (name h : string) (data : content) : list op :=
+  if tmp_creatable name then service_ops checks_writable name h data
+  else (if checks_writable then [OOpenW name] else []).
+
 (* unchanged tree: IsWritable opened with O_CREATE|O_TRUNC *)
 Definition service_ops_v0 (checks_writable : bool) (name h : string) (data : content) : list op :=
   ((if checks_writable then [OCreate name] else []) ++ save_ops_v0 name h data)%list.
@@ -330,4 +339,4 @@ Fixpoint decode_dir (s : scen) (l : list (string * cdesc)) : option dir :=
 (* a segment of a content, with Z bounds *)
 Definition seg (off n : Z) (c : content) : content := firstn (Z.to_nat n) (skipn (Z.to_nat off) c).
 
-Definition scen_ops (s : scen) : list op := service_ops (s_w s) (s_name s) (s_hash s) (s_new s).
+Definition scen_ops (s : scen) : list op := service_ops_fs (s_w s) (s_name s) (s_hash s) (s_new s).
